@@ -19,13 +19,13 @@ import (
 // struct Msg3{whee,woot,waga Int}, typed map {String:Msg3}, kinded union {Foo int | Bar bool | Baz string}.
 
 type C01GenCase struct {
-	Kind  string  `json:"kind"` // msg3 | map | union
-	Ints  []int64 `json:"ints"`
-	Keys  []string `json:"keys"` // val.Txt
-	Which int     `json:"which"` // union member
-	Str   string  `json:"str"`   // val.Txt
-	Prog  []byte  `json:"prog"`
-	Dup   int     `json:"dup"` // map: inject a repeated key before this entry (0 = none); style = Dup%3
+	Kind  string   `json:"kind"` // msg3 | map | union
+	Ints  []int64  `json:"ints"`
+	Keys  []string `json:"keys"`  // val.Txt
+	Which int      `json:"which"` // union member
+	Str   string   `json:"str"`   // val.Txt
+	Prog  []byte   `json:"prog"`
+	Dup   int      `json:"dup"` // map: inject a repeated key before this entry (0 = none); style = Dup%3
 }
 
 func msg3(a, b, c int64) val.V {
